@@ -31,6 +31,11 @@ def gen_plan(rng, i: int, tier: str) -> dict:
         rk = [62, hash_name, "ECDH_P384"]
     else:
         rk = [63, hash_name, "DH"]
+    if i % 11 == 0:
+        rk = rk[:3] + [dict(rk[3] if len(rk) > 3 else {}, rkid_int=0)]  # a root key whose id is the all-zero GUID (a present pointer to zeros, not a null pointer)
+    p521 = i % 13 == 5
+    if p521:
+        rk = [64, hash_name, "ECDH_P521"]  # only the codecs are exercised for P-521 (public-key replies decoded, then 'not authorised')
     nsub = 1 + i % 15
     sid_m = offline.sid_shape(nsub, i)
     sid_o = offline.sid_shape(1 + (i // 3) % 15, i + 1) + ("-9" if (1 + (i // 3) % 15) < 15 else "")
@@ -43,6 +48,12 @@ def gen_plan(rng, i: int, tier: str) -> dict:
             "dc": {"omit_l2_at_31": rng.random() < 0.5, "domain": NAMES[i % len(NAMES)], "forest": NAMES[(i // len(NAMES)) % len(NAMES)],
                    "pad_mode": rng.choice(("min16", "min4"))},
             "delivery": None, "ops": []}
+    if p521:
+        for _ in range(rng.randint(1, 2)):
+            plan["ops"].append({"op": "unprotect", "fl": rng.choice(("sync", "async")), "net": "online", "cache": "fresh",
+                                "blob": {"rk": 0, "sid": sid_o, "pos": list(cur), "mode": "nonce", "data": 5, "domain": "q.test", "forest": "q.test"}})
+        plan["p521"] = True
+        return plan
     if i % 4 == 3:
         # field values 0 and 2^32-1 (and empty / odd-length byte fields) in the envelope that crosses the wire
         M = 0xFFFFFFFF
@@ -174,6 +185,10 @@ def judge(plan, tr_ref: P.Trace, tr_lib: P.Trace):
             if plan.get("override"):
                 probes["envelope_boundary_values"] = 1
             probes["reply_" + a["kind"]] = 1
+            if plan.get("p521"):
+                probes["p521_public_key_decoded"] = 1
+            if a["root_key_id"] is not None and a["root_key_id"].int == 0:
+                probes["nil_guid_root_key_id"] = 1
     # (3)/(4) results and key identifiers
     for ot_r, ot_l in zip(tr_ref.ops, tr_lib.ops):
         if plan.get("override"):
@@ -234,7 +249,7 @@ class C11(common.Check):
     assumptions = ["structure values that no party can send in this protocol (e.g. an envelope with L1 = 2^32-1) are outside the technique and not claimed",
                    "NDR referent ids are free and compared through the decoder"]
     required_fired = tuple("sd_len_mod8_%d" % i for i in (0, 4)) + ("root_key_ptr_null", "root_key_ptr_set", "reply_seed", "reply_public") + \
-        tuple("env_len_mod8_%d" % i for i in range(8)) + ("envelope_boundary_values",)
+        tuple("env_len_mod8_%d" % i for i in range(8)) + ("envelope_boundary_values", "p521_public_key_decoded", "nil_guid_root_key_id")
 
     def cases(self, tier, seed):
         rng = prng.stream(seed, "C11")
